@@ -41,6 +41,7 @@ type Node struct {
 	N       int    // number of alternatives
 	Chosen  int    // index taken
 	Preempt bool   // alternatives >0 cost a deviation (running goroutine still enabled, or data choice)
+	Data    bool   // a data choice (X.Choose) rather than a scheduling decision
 	Kind    string // "sched" or the Choose label
 	Desc    string // who was enabled / what was chosen, for traces
 }
@@ -80,6 +81,10 @@ type Config struct {
 	Name string
 	// Bound is the deviation bound (inclusive).
 	Bound int
+	// ChoiceBound, if > 0, is a separate budget for non-default data choices
+	// (injected faults ...); Bound then limits preemptions only. With 0 data
+	// choices and preemptions share Bound.
+	ChoiceBound int
 	// MaxSteps bounds one execution (default 20000).
 	MaxSteps int
 	// FakeHorizon is how much fake time one execution may let pass when
@@ -147,7 +152,7 @@ func (x *X) decide(n int, costly bool, kind, desc string) int {
 			c = 0
 		}
 	}
-	x.nodes = append(x.nodes, Node{N: n, Chosen: c, Preempt: costly, Kind: kind, Desc: desc})
+	x.nodes = append(x.nodes, Node{N: n, Chosen: c, Preempt: costly, Kind: kind, Desc: desc, Data: kind != "sched"})
 	return c
 }
 
@@ -393,11 +398,15 @@ func Explore(t *testing.T, cfg *Config, res *vk.Result, deadline time.Time) {
 	}
 	sc := res.Scenario(cfg.Name)
 	sc.Bound = fmt.Sprintf("all schedules/choices with <= %d deviations (preemptions, injected faults, timer firings)", cfg.Bound)
+	if cfg.ChoiceBound > 0 {
+		sc.Bound = fmt.Sprintf("all executions with <= %d preemptions and <= %d non-default data choices (injected faults)", cfg.Bound, cfg.ChoiceBound)
+	}
 	type item struct {
 		prefix []int
-		cost   int
+		cost   int // preemptions (and data choices when they share the budget)
+		ccost  int // data choices under a separate ChoiceBound
 	}
-	stack := []item{{nil, 0}}
+	stack := []item{{nil, 0, 0}}
 	top := 0 // index of direct children of the root, for sharding
 	var execs int64
 	reported := map[string]bool{}
@@ -453,11 +462,15 @@ func Explore(t *testing.T, cfg *Config, res *vk.Result, deadline time.Time) {
 		for i := len(it.prefix); i < len(r.nodes); i++ {
 			n := r.nodes[i]
 			for alt := n.N - 1; alt >= 1; alt-- {
-				c := cost
+				c, cc := cost, it.ccost
 				if n.Preempt {
-					c++
+					if n.Data && cfg.ChoiceBound > 0 {
+						cc++
+					} else {
+						c++
+					}
 				}
-				if c > cfg.Bound {
+				if c > cfg.Bound || (cfg.ChoiceBound > 0 && cc > cfg.ChoiceBound) {
 					continue
 				}
 				if len(it.prefix) == 0 {
@@ -468,7 +481,7 @@ func Explore(t *testing.T, cfg *Config, res *vk.Result, deadline time.Time) {
 					}
 				}
 				p := append(append([]int{}, choices(r.nodes[:i])...), alt)
-				stack = append(stack, item{p, c})
+				stack = append(stack, item{p, c, cc})
 			}
 		}
 		if len(it.prefix) == 0 {
